@@ -8,6 +8,7 @@ import Driver.Aead
 import Driver.Config
 import Driver.Proxyflow
 import Driver.Forward
+import Driver.Authflow
 open Lean Sso.Drv
 
 /-! `ssoverif <trace.jsonl>`: one verdict line per case, then a summary line. -/
@@ -23,6 +24,7 @@ def dispatch (e : String) (j : Json) : Except String Verdict :=
   | "config" => Sso.Drv.Config.checkCase j
   | "proxyflow" => Sso.Drv.Proxyflow.checkCase j
   | "forward" => Sso.Drv.Forward.checkCase j
+  | "authflow" => Sso.Drv.Authflow.checkCase j
   | _ => throw s!"unknown engine {e}"
 
 partial def loop (h : IO.FS.Stream) (out : IO.FS.Stream) (n bad : Nat) : IO (Nat × Nat) := do
